@@ -578,8 +578,8 @@ pub fn run(tier: Tier, replay_file: Option<&str>) -> i32 {
     let total = exprs.len();
     ctx.set_info("expressions", json!(total));
     let styles = [
-        Style { paren: Paren::Minimal, index_attrs: false, escape_all: false },
-        Style { paren: Paren::Full, index_attrs: true, escape_all: false },
+        Style { paren: Paren::Minimal, index_attrs: false, escape_all: false, dot_reserved: false },
+        Style { paren: Paren::Full, index_attrs: true, escape_all: false, dot_reserved: false },
     ];
     exprs.par_chunks(256).enumerate().for_each(|(ci, chunk)| {
         let p = prepare();
